@@ -91,7 +91,7 @@ def schema():
     global _SCHEMA
     if _SCHEMA is None:
         from py_gql import build_schema
-        _SCHEMA = build_schema(valgamma.SDL)
+        _SCHEMA = valgamma.install_any(build_schema(valgamma.SDL))
     return _SCHEMA
 
 
